@@ -165,7 +165,7 @@ def command(plan, d):
     return cmd
 
 
-def run_plan(plan, scratch, timeout=None, keep=False):
+def run_plan(plan, scratch, timeout=None, keep=False, _retry=0):
     """-> dict(rc, log (str), err (str), timed_out, cmd). Raises dst.Infra when the harness itself is missing/broken."""
     sg = sg_root()
     if not os.path.exists(sg + '/lib/simgrid/smpimain') or not os.path.exists(mpisim_bin()):
@@ -190,6 +190,11 @@ def run_plan(plan, scratch, timeout=None, keep=False):
             shutil.rmtree(d, ignore_errors=True)
     err = err.decode(errors='replace')
     if rc == 127 or 'error while loading shared libraries' in err or 'cannot open shared object' in err:
+        # bin/vbuild relinks the library in place: wait for it instead of failing the campaign
+        import time
+        if _retry < 40:
+            time.sleep(3)
+            return run_plan(plan, scratch, timeout, keep, _retry + 1)
         raise dst.Infra('loader failure (library being rebuilt?): ' + err[-300:])
     if rc == 97 or 'MPISIM-FATAL' in err:
         raise dst.Infra('interpreter rejected the plan: ' + err[-600:])
@@ -239,7 +244,7 @@ def run_watch(cmd, d, timeout, env):
     except OSError as ex:
         fo.close()
         fe.close()
-        raise dst.Infra('cannot start smpimain (build in progress?): %s' % ex)
+        return 127, b'', ('error while loading shared libraries: cannot start smpimain: %s' % ex).encode(), False
     t0 = time.time()
     last_size = -1
     cpu_mark = 0.0
@@ -1003,6 +1008,7 @@ def analyze(plan, res):
     sends = {}
     recvs = {}
     badtypes = set()
+    allbad = []
     A.badtypes = badtypes
     dumps = {}
     probes = {}
@@ -1012,6 +1018,7 @@ def analyze(plan, res):
         ops = B.ops[rank]
         active = {}     # q -> (side, mid)
         badobj = set()   # ('g'|'c', slot) whose value in SMPI already differs from MPI: consumers are not blamed
+        allbad.append(badobj)
         tainted = set()  # requests that went through a Testall that returned flag=0
         for idx, (name, args, meta) in enumerate(ops):
             L = per[rank].get(idx)
@@ -1210,6 +1217,15 @@ def analyze(plan, res):
                 V[0] = ('trunc-' + ex[0], 'oversized message %s (%d bytes into a %d-byte receive) is never delivered nor reported: %s' %
                         (it['id'], sends[it['id']]['bytes'], B.ti(it['rt']).size * it['rc'], ex[1]))
                 break
+    bad_slots = {o[1] for b_ in allbad for o in b_ if o[0] == 'c'}
+    if bad_slots and any(it['k'] == 'msg' and it['c'] in bad_slots for it in plan['items']):
+        # traffic ran on a communicator whose group already differs from MPI's: ranks of the plan address other
+        # processes there, so nothing about that traffic (nor a resulting stall) can be asserted
+        keep = ('split-', 'dup-', 'create-', 'group-', 'translate', 'compare', 'layout-', 'global-leak')
+        dropped = [c for c, _ in V if not c.startswith(keep)]
+        V[:] = [(c, m) for c, m in V if c.startswith(keep)]
+        st['runs_tainted_by_bad_comm'] = 1
+        st['classes_dropped_bad_comm'] = len(dropped)
     # ---- signature: global order of communication events
     for L in order:
         if L.idx < 0:
